@@ -31,7 +31,7 @@ define_state_group!(attributes_states_group = {
         whitespace => ()
         b'"'       => ( set_closing_quote_to_double; --> #[inline] attribute_value_double_quoted_state )
         b'\''      => ( set_closing_quote_to_single; --> #[inline] attribute_value_single_quoted_state )
-        b'>'       => ( finish_attr; emit_tag?; --> data_state )
+        b'>'       => ( finish_attr; emit_tag?; --> dyn next_text_parsing_state )
         eof        => ( emit_raw_without_token_and_eof?; )
         _          => ( reconsume in attribute_value_unquoted_state )
     }
